@@ -147,6 +147,10 @@ class Check:
     def known(self, what):
         self.known_hits.append(what)
 
+    def known_classes(self):
+        """class -> description of the findings recorded for this property in known_findings.json"""
+        return {f["class"]: f["what"] for f in self.findings.get("findings", []) if f.get("property") == self.pid}
+
     def finish(self, level="proof", checker_cmd=""):
         wall = time.time() - self.t0
         cov = dict(self.cov)
